@@ -64,6 +64,10 @@ pub enum Ev {
     MgrNotInterested(usize),
     MgrStats(usize, Option<u32>, Option<u32>),
     MgrKill(usize),
+    MgrHave(usize, usize),
+    MgrChoke(usize),
+    /// Unchoke command with a live reply channel: the manager's answer is kept in `mgr_reply`.
+    MgrUnchoke(usize),
     /// A new connection appears (outgoing: the client connects and speaks first).
     AddPeer(PeerCfg),
 }
@@ -102,6 +106,8 @@ pub struct World {
     pub broadcasts: Vec<BroadCmd>,
     /// Broadcasts handed to a connection task by `Release` events of the last step: (peer, command).
     pub released: Vec<(usize, BroadCmd)>,
+    /// Debug rendering of the manager's answer to the last MgrUnchoke / MgrHave command.
+    pub mgr_reply: Option<String>,
     /// Addresses of manager-only peers (registered with the manager, no connection task).
     pub mgr_peers: Vec<String>,
     start: tokio::time::Instant,
@@ -159,6 +165,7 @@ impl World {
             choice_groups: vec![],
             broadcasts: vec![],
             released: vec![],
+            mgr_reply: None,
             mgr_peers: vec![],
             start,
             steps: 0,
@@ -224,6 +231,7 @@ impl World {
         self.cmds.clear();
         self.broadcasts.clear();
         self.released.clear();
+        self.mgr_reply = None;
         if let Some(Ev::Release(i)) = ev {
             if let Some(cmd) = self.peers[*i].pending.front() {
                 self.released.push((*i, cmd.clone()));
@@ -240,7 +248,7 @@ impl World {
         }
         self.steps += 1;
         rdest::verif::set_choices(digits.to_vec());
-        let World { rt, local, session, peers, harness_rx, cmds, gated, start, broadcasts, mgr_peers, .. } = self;
+        let World { rt, local, session, peers, harness_rx, cmds, gated, start, broadcasts, mgr_peers, mgr_reply, .. } = self;
         let gated = *gated;
         let start = *start;
         let res = core::catch(|| {
@@ -251,6 +259,8 @@ impl World {
                     Some(Ev::AdvanceTo(ms)) => start + Duration::from_millis(*ms) + Duration::from_secs(3600),
                     _ => tokio::time::Instant::now() + Duration::from_secs(3600),
                 };
+                let mut unchoke_rx: Option<tokio::sync::oneshot::Receiver<rdest::verif::UnchokeCmd>> = None;
+                let mut have_rx: Option<tokio::sync::oneshot::Receiver<rdest::verif::HaveCmd>> = None;
                 let body = async {
                 let mut manager_err: Option<String> = None;
                 match ev {
@@ -286,6 +296,17 @@ impl World {
                             }
                             Ev::MgrStats(k, d, u) => PeerCmd::SyncStats { addr: mgr_peers[*k].clone(), downloaded_rate: *d, uploaded_rate: *u, unexpected_blocks: 0 },
                             Ev::MgrKill(k) => PeerCmd::KillReq { addr: mgr_peers[*k].clone(), reason: "scripted".to_string() },
+                            Ev::MgrChoke(k) => PeerCmd::RecvChoke { addr: mgr_peers[*k].clone() },
+                            Ev::MgrUnchoke(k) => {
+                                let (resp_ch, rx) = tokio::sync::oneshot::channel();
+                                unchoke_rx = Some(rx);
+                                PeerCmd::RecvUnchoke { addr: mgr_peers[*k].clone(), resp_ch }
+                            }
+                            Ev::MgrHave(k, i) => {
+                                let (resp_ch, rx) = tokio::sync::oneshot::channel();
+                                have_rx = Some(rx);
+                                PeerCmd::RecvHave { addr: mgr_peers[*k].clone(), piece_index: *i, resp_ch }
+                            }
                             _ => unreachable!(),
                         };
                         let _ = tx.send(cmd).await;
@@ -344,7 +365,14 @@ impl World {
                 }
                 manager_err
                 };
-                match tokio::time::timeout_at(horizon, body).await {
+                let r = tokio::time::timeout_at(horizon, body).await;
+                if let Some(mut rx) = unchoke_rx {
+                    *mgr_reply = rx.try_recv().ok().map(|c| format!("{:?}", c));
+                }
+                if let Some(mut rx) = have_rx {
+                    *mgr_reply = rx.try_recv().ok().map(|c| format!("{:?}", c));
+                }
+                match r {
                     Ok(r) => r,
                     Err(_) => Some("DEADLOCK: the step did not reach quiescence within an hour of virtual time (manager and a task wait for each other)".to_string()),
                 }
